@@ -481,7 +481,7 @@ def common_meta(ctx):
         "Coq 8.16.1 kernel incl. vm_compute; no axioms (Print Assumptions: closed under the global context)",
         "hand-written model coq/theories/C19/Model.v of python/trace-python.c (init_filters, match_filter [ERE subset "
         "^ $ . literals; glob subset * ? literals; simple], apply_filters, can_trace, event dispatch, "
-        "get_python_funcname/get_c_funcname, code_tree/symtab) and coq/theories/C19/SymFile.v (write_symtab, line reader) "
+        "get_python_funcname/get_c_funcname, code_tree/symtab) and coq/theories/C19/SymFile.v (write_symtab, line reader), coq/theories/C19/Lazy.v (lazy ENTRY write of libmcount) "
         "incl. the call-depth test (depth_guard)",
         "harness/py/c19_driver.py (synthetic frame objects, real builtin objects), harness/c/c19_fakemcount.c (logs hook calls), "
         "props/c19.py (parser of `uftrace replay` output, program generator; python.fake.sym is compared byte for byte in Coq)",
@@ -502,7 +502,9 @@ def run(ctx):
     common_meta(ctx)
     objdir = setup(ctx)
     cases = scripted(ctx, objdir)
+    ctx.log("scripted: %d event streams run through the real uftrace_python.so" % len(cases))
     res = evaluate(ctx, cases)
+    ctx.log("scripted: evaluated in Coq")
     for k in cases:
         ev = flatten(k["funcs"], k["forest"], []) + list(k["raw"])
         ctx.case(key=(k["env"], k["lib"], k["pymain"], json.dumps(k["funcs"], sort_keys=True), tuple(ev)),
